@@ -454,22 +454,16 @@ class access:
             if not self._should_apply(branch):
                 return
             for w in self[UnserialWorlds][branch]:
+                if not branch.has({Node.Key.world: w}):
+                    # Nothing is said about this world, so nothing on the
+                    # branch calls for a successor.
+                    continue
                 yield Target(adds(
                     group(anode(w, branch.new_world())),
                     world=w,
                     branch=branch))
 
         def _should_apply(self, branch: Branch,/):
-            try:
-                entry = next(reversed(self.tableau.history))
-            except StopIteration:
-                pass
-            else:
-                # This tends to stop modal explosion better than the max worlds check,
-                # at least in its current form (all modal operators + worlds + 1).
-                if entry.rule == self and entry.target.branch == branch:
-                    return False
-            # As above, this is unnecessary
             if self[MaxWorlds].is_exceeded(branch):
                 return False
             return True
